@@ -17,7 +17,9 @@ RULE = ('one case = one Configurator (2-10 add_view calls: context in class tree
         'requests through Router.__call__ (30 % of the cases on a tree whose root is named None, 8 % of the bodies raise HTTPNotFound '
         'themselves, the security policy\'s identity() independent of authenticated_userid(), value twins = two views of one slot whose '
         'predicate values differ in one NEAR value (containment classes / interfaces of another module with the same short name, '
-        'k vs k=, X-Foo vs X-Foo:, GET vs HEAD ...), 40 % of the cases with a second '
+        'k vs k=, X-Foo vs X-Foo:, GET vs HEAD ...), 30 % of the cases on container-style resources (an empty one is falsy), a '
+        'ContextFound subscriber that marks the context with an interface views are registered for, add_view given for_= or positional '
+        'arguments, 40 % of the cases with a second '
         'application alive in the process that is asked first in the last phase), each sent at a chosen moment of the commit history (warm lookup cache) and compared with the model on the registrations committed so far; non-trivial = the case has >= 3 registrations, at least one request on which '
         'a view body ran after the lookup had at least two name-matching registrations in range, and at least one request '
         'that ended in Not Found or ran a different body; distinct by full case')
@@ -40,16 +42,18 @@ ASSUMPTIONS = [
 TRUSTED = [
     'translator harness/c03/translate.py: its PRIMITIVE TABLE (ATTR / METHODS / CALLS / PROJ / idioms / glue: which Python leaf '
     'means which primitive of Model/C03.v or of the prelude of Gen/Facts_C03_gen.v) and its mechanical statement-to-term rules',
-    'hand-written model coq/Model/C03.v of the functions that are still shape-pinned: the predicate constructors (__init__) other '
+    'call-closure audit harness/c03/closure.py: global names only (calls through object attributes are table entries, triaged by hand)',
+    'hand-written model coq/Model/C03.v of the functions that are still shape-pinned (register_view, normalize_accept_offer, one-line constructors): the predicate constructors (__init__) other '
     'than RequestMethod / RequestParam / Header / MatchParam / PhysicalPath (those five are regenerated: gen_factory_is_model), '
-    'MultiView.add, register_view, attr_wrapped_view, sort_accept_offers (the lookup, make, the predicate __call__ and the '
+    'register_view, normalize_accept_offer (the lookup, make, MultiView.add, sort_accept_offers, attr_wrapped_view, the predicate __call__ and the '
     'text()/phash() bodies are regenerated and proved equal to the model)',
     'the prefix / separator literals the reference model reads from text() (c03facts) are accepted only while they keep the texts '
     'of different predicates apart (non-empty not_ mark, no prefix a prefix of another); otherwise the reference literals stay',
     'attribute propagation through the view derivers (only the outermost attr_wrapped_view / predicated_view wrappers are modelled)',
 ]
 TECHNIQUE = ('Coq proof about a Gallina program whose control flow is translated from the Python source on every run '
-             '(harness/c03/translate.py -> Gen/Facts_C03_gen.v: _find_views, _call_view, MultiView.get_views/match/__call__, '
+             '(harness/c03/translate.py -> Gen/Facts_C03_gen.v: _find_views, _call_view, MultiView.add/get_views/match/__call__, '
+             'sort_accept_offers (+ nested), attr_wrapped_view, '
              'predicated_view and its wrappers, PredicateList.make, the __call__ of the 12 stock predicate classes, the text()/phash() of '
              'the 10 stock classes + CustomPredicate.phash + Notted.phash/_notted_text -- f-strings, % and str.format templates, join, '
              'comprehensions; the constructors of the RequestMethod, RequestParam, Header, MatchParam and PhysicalPath predicates -- split unpacking as a may-raise match, '
@@ -66,10 +70,10 @@ LEVEL_TEXT = ('Machine-checked theorems over the executable model, for registrat
               'arithmetic bound (tightness refuted beyond it); one characterisation lemma per built-in predicate; the regenerated '
               'phash texts equal the model\'s, two containment values share a key iff their str() agree, not_(P) never shares P\'s key; '
               'the accept-aware lookup theorem holds for registrations as add_view makes them without a premise on predicate lists '
-              '(accept_wf proved of make\'s output).')
+              '(accept_wf proved of make\'s output); the regenerated MultiView.add, sort_accept_offers and attr_wrapped_view equal the model.')
 LEVEL_NOTE = ('Trusted: Coq kernel; the translator\'s primitive table (control flow of the lookup, make and the predicate bodies is '
-              'regenerated, not pinned; so are the text()/phash() bodies and five constructors); the hand-written model of the functions that are still pinned (MultiView.add, register_view, '
-              'attr_wrapped_view, sort_accept_offers, predicate constructors; validated by correspondence); Python harness; '
+              'regenerated, not pinned; so are the text()/phash() bodies and five constructors); the hand-written model of the functions that are still pinned (register_view, '
+              'normalize_accept_offer, the one-line predicate constructors; validated by correspondence); Python harness; '
               'zope.interface, WebOb and re as oracles. The specificity theorem assumes duplicate-free resolution orders, '
               'no two registrations with the same (slot, phash), orders computed by make within the bound, and no accept=.')
 
@@ -77,7 +81,7 @@ OFFERS = ['text/html', 'application/json', 'text/plain', 'text/html;level=1', 'a
 ACCEPT_HEADERS = [None, 'text/html', 'application/json', 'text/*;q=0.5, application/json', '*/*',
                   'text/html;q=0', 'application/json;q=0.3, text/html;q=0.7', 'text/plain, text/html;level=1;q=0.9',
                   'application/x-foo, text/html;q=0.1', 'image/png', 'garbage;;']
-CTXS = [None, 'A', 'B', 'C', 'U', 'I', 'Root']
+CTXS = [None, 'A', 'B', 'C', 'U', 'I', 'Root', 'M']      # M: a marker interface a ContextFound subscriber puts on the context
 CONT = ['A', 'B', 'C', 'U', 'Root', 'I', 'A2', 'I2']     # A2 / I2: another module's class / interface NAMED 'A' / 'I'
 PATHS = [[], ['a'], ['a', 'b'], ['a', 'b', 'c'], ['u'], ['u', 'c'], ['u', 'i'], ['x'], ['u', 'd']]
 VNAMES = ['', 'v', 'w']
@@ -100,6 +104,22 @@ def facts(src):
     problems = []
     summary = F.check_shapes(src, os.path.join(HERE, 'pins.json'), problems)
     summary.update(F.check_shapes(src, os.path.join(HERE, 'pins_audit.json'), problems))   # coverage audit: see NOTES.md
+    summary.update(F.check_shapes(src, os.path.join(HERE, 'pins_closure.json'), problems))  # callees outside the anchor files
+    # call-closure audit (fail-closed): every pyramid function / class a tied function uses is tied or declared
+    import json
+    from harness.c03 import closure
+    tied = set(translate.TRANSLATED)
+    for f in ('pins.json', 'pins_audit.json', 'pins_closure.json'):
+        with open(os.path.join(HERE, f)) as fh:
+            for rel, quals in json.load(fh).items():
+                tied.update('%s:%s' % (rel, q) for q in quals)
+    declared = {}
+    for f in ('untied_ok.json', 'callees_ok.json'):
+        with open(os.path.join(HERE, f)) as fh:
+            declared.update(json.load(fh))
+    cproblems, reached = closure.audit(src, tied, declared)
+    problems += cproblems
+    summary['call_closure'] = {'tied': len(tied), 'callees_reached': len(reached)}
     v = c03facts.extract(src, problems)
     summary.update({'max_order': v['max_order'], 'weight': v['weight'], 'order_of': v['order_of'],
                     'score_step': v['score_step'], 'pred_names': v['pred_names'],
@@ -160,11 +180,12 @@ def gen_view(rng, tag, routes, third, focus):
         ctx, name = rng.choice(CTXS), rng.choice(['', '', '', 'v', 'v', 'w'])
     return {'ctx': ctx, 'name': name, 'route': route, 'preds': preds, 'nots': sorted(nots),
             'accept': rng.choice(OFFERS) if rng.random() < 0.12 else None,
-            'perm': rng.random() < 0.12, 'tag': tag, 'raises404': rng.random() < 0.08}
+            'perm': rng.random() < 0.12, 'tag': tag, 'raises404': rng.random() < 0.08,
+            'style': rng.choice(['kw'] * 7 + ['for_', 'for_', 'pos'])}
 
 
 CTX_PATHS = {'A': [['a'], ['a', 'b'], ['a', 'b', 'c'], ['u', 'i'], ['u', 'c']], 'B': [['a', 'b'], ['a', 'b', 'c'], ['u', 'c']],
-             'C': [['a', 'b', 'c'], ['u', 'c']], 'U': [['u']], 'I': [['u', 'i']], 'Root': [[]], None: PATHS}
+             'C': [['a', 'b', 'c'], ['u', 'c']], 'U': [['u']], 'I': [['u', 'i']], 'Root': [[]], None: PATHS, 'M': PATHS}
 
 
 # paths whose lineage contains an instance / provider of the containment value
@@ -202,6 +223,7 @@ def gen_request(rng, case):
             'accept': rng.choice(ACCEPT_HEADERS), 'route': route, 'mp': rng.choice(['1', '1', '2', ' 1']),
             'path': rng.choice(paths), 'vname': vname, 'user': rng.random() < 0.4,
             'ident': rng.random() < 0.4,
+            'mark': rng.random() < (0.85 if aimed and target['ctx'] == 'M' else 0.2),
             'truth': sorted(rng.sample(range(10), rng.choice([0, 2, 4, 5, 7, 10])))}
 
 
@@ -300,7 +322,7 @@ def gen_case(rng):
     if rng.random() < 0.5:                        # else: 1-3 explicit commits
         commits = sorted(need | set(rng.sample(range(nv), rng.choice([0, 1, 2]))))
     case = {'routes': routes, 'third': third, 'views': views, 'commits': commits, 'requests': [],
-            'rootnone': rng.random() < 0.3, 'twoapps': rng.random() < 0.4}
+            'rootnone': rng.random() < 0.3, 'twoapps': rng.random() < 0.4, 'falsy': rng.random() < 0.3}
     points = _points(case)
     for _ in range(rng.choice([10, 12, 14])):
         tidx, r = gen_request(rng, case)
@@ -328,7 +350,7 @@ def generate(rng, tier, n):
 
 def valid(case):
     try:
-        if not isinstance(case, dict) or set(case) - {'rootnone', 'twoapps'} != {'routes', 'third', 'views', 'requests', 'commits'}:
+        if not isinstance(case, dict) or set(case) - {'rootnone', 'twoapps', 'falsy'} != {'routes', 'third', 'views', 'requests', 'commits'}:
             return False
         if not case['views'] or not case['requests']:
             return False
@@ -348,6 +370,8 @@ def valid(case):
             if v['ctx'] not in CTXS or v['name'] not in VNAMES or not (v['route'] is None or v['route'] in rn):
                 return False
             if v['accept'] is not None and v['accept'] not in OFFERS:
+                return False
+            if v.get('style', 'kw') not in ('kw', 'for_', 'pos'):
                 return False
             for n, val in v['preds'].items():
                 if n in ('zthird', 'ythird'):
@@ -386,6 +410,8 @@ def valid(case):
                 return False
             if r['post'] and r['method'] in ('GET', 'HEAD', 'DELETE'):
                 return False
+            if not isinstance(r.get('mark', False), bool):
+                return False
             for kv in r['qs'] + r['post'] + r['headers']:
                 if not (isinstance(kv, list) and len(kv) == 2 and all(isinstance(x, str) and x.isprintable() for x in kv)):
                     return False
@@ -420,6 +446,8 @@ def shrinks(case):
         yield dict(case, rootnone=False)
     if case.get('twoapps'):
         yield dict(case, twoapps=False)
+    if case.get('falsy'):
+        yield dict(case, falsy=False)
     n = len(case['views'])
     for i, r in enumerate(case['requests']):
         if _after(r, n) != n:
@@ -430,12 +458,12 @@ def shrinks(case):
             del p[n]
             yield dict(case, views=case['views'][:i] + [dict(v, preds=p, nots=[x for x in v['nots'] if x != n])]
                        + case['views'][i + 1:])
-        for k, simple in (('accept', None), ('perm', False), ('route', None), ('nots', []), ('raises404', False)):
+        for k, simple in (('accept', None), ('perm', False), ('route', None), ('nots', []), ('raises404', False), ('style', 'kw')):
             if v.get(k, simple) != simple:
                 yield dict(case, views=case['views'][:i] + [dict(v, **{k: simple})] + case['views'][i + 1:])
     for i, r in enumerate(case['requests']):
         for k, simple in (('qs', []), ('post', []), ('headers', []), ('xhr', False), ('accept', None), ('route', None),
-                          ('user', False), ('ident', False), ('truth', []), ('path', []), ('method', 'GET'), ('mp', '1')):
+                          ('user', False), ('ident', False), ('mark', False), ('truth', []), ('path', []), ('method', 'GET'), ('mp', '1')):
             if r.get(k, simple) != simple:
                 yield dict(case, requests=case['requests'][:i] + [dict(r, **{k: simple})] + case['requests'][i + 1:])
     if case['third'] and not any(n in v['preds'] for v in case['views'] for n in ('zthird', 'ythird')):
@@ -466,11 +494,16 @@ def setup(tier):
     class I(Interface):
         pass
 
+    flags = {'falsy': False}          # set per case: container-style resources (an EMPTY one is falsy), see World
+
     class Node:
         def __init__(self, name, parent):
             self.__name__, self.__parent__, self.kids = name, parent, {}
             if parent is not None:
                 parent.kids[name] = self
+
+        def __bool__(self):               # `class Folder(dict)` style: a resource without children is falsy
+            return bool(self.kids) if flags['falsy'] else True
 
         def __getitem__(self, k):
             return self.kids[k]
@@ -490,9 +523,15 @@ def setup(tier):
     class U(Node):
         pass
 
+    class M(Interface):                    # marker put on the context of a request by a ContextFound subscriber
+        pass
+
     class X:                               # a leaf without __name__
         def __init__(self, parent):
             self.__parent__ = parent
+
+        def __bool__(self):
+            return not flags['falsy']
 
         def __getitem__(self, k):
             raise KeyError(k)
@@ -517,7 +556,9 @@ def setup(tier):
         return root
     root = build_tree('')
     root_none = build_tree(None)             # a root whose __name__ is None (pyramid's DefaultRootFactory spelling)
-    classes = {'A': A, 'B': B, 'C': C, 'U': U, 'Root': Root, 'I': I, 'A2': A2, 'I2': I2}
+    classes = {'A': A, 'B': B, 'C': C, 'U': U, 'Root': Root, 'I': I, 'A2': A2, 'I2': I2, 'M': M}
+    from zope.interface import noLongerProvides
+    from pyramid.events import ContextFound
 
     class Custom:
         def __init__(self, i):
@@ -647,6 +688,13 @@ class World:
             resp.headers['X-Tag'] = 'nf-pme' if isinstance(request.exception, P['PredicateMismatch']) else 'nf-none'
             return resp
         cfg.add_notfound_view(notfound)
+
+        def on_context_found(event):        # a per-request marker (workflow state ...) decided when the context is known
+            rq = event.request
+            if rq.environ.get('c03.mark'):
+                P['alsoProvides'](rq.context, P['M'])
+                rq.environ['c03.marked'] = rq.context
+        cfg.add_subscriber(on_context_found, P['ContextFound'])
         if batched:
             cfg.commit()
         self.ids = {}
@@ -685,8 +733,8 @@ class World:
         P = _P
         if name is None:
             return P['Interface']
-        if name == 'I':
-            return P['I']
+        if name in ('I', 'M'):
+            return P[name]
         return P['implementedBy'](P['classes'][name])
 
     def _add_view(self, v):
@@ -736,9 +784,16 @@ class World:
             po = P['Accept'].parse_offer(v['accept'])
             acc = [str(po), po.type + '/' + po.subtype, bool(po.params)]
         ctxobj = None if v['ctx'] is None else P['classes'][v['ctx']]
+        style = v.get('style', 'kw')
         try:
-            self.cfg.add_view(body, context=ctxobj, name=v['name'], route_name=v['route'],
-                              permission='view' if v['perm'] else None, **kw)
+            if style == 'for_':              # the documented alias of context=
+                self.cfg.add_view(body, for_=ctxobj, name=v['name'], route_name=v['route'],
+                                  permission='view' if v['perm'] else None, **kw)
+            elif style == 'pos':             # add_view(view, name, for_, permission, ...) given positionally
+                self.cfg.add_view(body, v['name'], ctxobj, 'view' if v['perm'] else None, route_name=v['route'], **kw)
+            else:
+                self.cfg.add_view(body, context=ctxobj, name=v['name'], route_name=v['route'],
+                                  permission='view' if v['perm'] else None, **kw)
         except Exception as e:
             self.failed.add(tag)
             self.fail_kind = type(e).__name__
@@ -773,13 +828,26 @@ class World:
             req.environ['c03.user'] = 'bob'
         if r.get('ident', r['user']):
             req.environ['c03.ident'] = {'record': 'guest-or-bob'}
+        if r.get('mark'):
+            req.environ['c03.mark'] = True
         return req
 
     def oracle(self, r):
         """The request as the model sees it; every library-dependent part computed by the library."""
         P = _P
         req = self.environ(r)
+        P['flags']['falsy'] = bool(self.case.get('falsy'))
         ctx = _find_resource(r['path'], self.case.get('rootnone'))
+        if r.get('mark'):
+            P['alsoProvides'](ctx, P['M'])
+        try:
+            return self._oracle(r, req, ctx)
+        finally:
+            if r.get('mark'):
+                P['noLongerProvides'](ctx, P['M'])
+
+    def _oracle(self, r, req, ctx):
+        P = _P
         params = [[k, req.params.get(k)] for k in PARAM_KEYS + ['='] if req.params.get(k) is not None]
         hnames = set(HDR_NAMES)
         pats = set()
@@ -826,7 +894,13 @@ class World:
         if self.shadow_app is not None and _after(r, len(self.case['views'])) == len(self.case['views']):
             self.environ(r).get_response(self.shadow_app)          # the other application is asked first
         req = self.environ(r)
-        resp = req.get_response(self.app)
+        _P['flags']['falsy'] = bool(self.case.get('falsy'))
+        try:
+            resp = req.get_response(self.app)
+        finally:
+            marked = req.environ.get('c03.marked')
+            if marked is not None:
+                _P['noLongerProvides'](marked, _P['M'])
         tag = resp.headers.get('X-Tag')
         if tag is not None and tag.startswith('shadow'):
             return ['VIEW-OF-ANOTHER-APPLICATION-RAN', tag]
@@ -1038,6 +1112,14 @@ def kinds(case, obs):
         k.append('cfg:root-named-None')
     if case.get('twoapps'):
         k.append('cfg:two-applications-interleaved')
+    if case.get('falsy'):
+        k.append('cfg:falsy-empty-resources')
+    if any(r.get('mark') for r in case['requests']):
+        k.append('cfg:context-marked-by-subscriber')
+    if any(v['ctx'] == 'M' for v in case['views']):
+        k.append('cfg:view-on-marker-interface')
+    for st in sorted({v.get('style', 'kw') for v in case['views']} - {'kw'}):
+        k.append('cfg:add_view-' + ('for_-alias' if st == 'for_' else 'positional-arguments'))
     if any(r.get('ident', r['user']) != r['user'] for r in case['requests']):
         k.append('cfg:identity-differs-from-userid')
     k.append('cfg:autocommit' if case['commits'] is None else 'cfg:commits%d' % (len(case['commits']) + 1))
